@@ -36,7 +36,7 @@ def run_variant(args):
     if src.count(old) < 1:
         return ident, 'skipped', 'fragment not found in %s' % module
     sources = dict(sources)
-    sources[module] = src.replace(old, new, 1)
+    sources[module] = src.replace(old, new) if ident.startswith('all-') else src.replace(old, new, 1)
     rep = report.Report(prop, 'selftest', 0, write=False)
     err = None
     try:
